@@ -62,12 +62,19 @@ fn gen_fires(rng: &mut Rng, c: usize, n: usize) -> Vec<(usize, usize)> {
     v
 }
 
+thread_local! {
+    /// `big` profile, "sparse" cases: no child has anything to say on its first poll, so that a poll of a wide
+    /// container (more children than any per-poll budget or block size) has to visit every one of them
+    static SPARSE: std::cell::Cell<bool> = const { std::cell::Cell::new(false) };
+}
+
 fn gen_script(rng: &mut Rng, kind: ChildKind, c: usize, n: usize, small: bool, prof: &Profile) -> Vec<Step> {
     let mut steps = vec![];
     let maxp = if small { 2 } else { 4 };
+    let sparse = SPARSE.with(|s| s.get());
     match kind {
         ChildKind::Fut | ChildKind::Res => {
-            let pend = rng.below(maxp);
+            let pend = rng.below(maxp).max(if sparse { 1 } else { 0 });
             for _ in 0..pend {
                 steps.push(Step { res: Res::Pend, fires: gen_fires(rng, c, n) });
             }
@@ -91,6 +98,9 @@ fn gen_script(rng: &mut Rng, kind: ChildKind, c: usize, n: usize, small: bool, p
         ChildKind::Stream => {
             let items = if prof.is("fair") && rng.chance(50) { 6 + rng.below(6) } else { rng.below(if small { 3 } else { 5 }) };
             let always = prof.is("fair") && rng.chance(60);
+            if sparse {
+                steps.push(Step { res: Res::Pend, fires: vec![] });
+            }
             for k in 0..items {
                 if !always {
                     let pend = rng.below(3).saturating_sub(if rng.chance(50) { 1 } else { 0 });
@@ -723,12 +733,14 @@ fn run_fixed(rng: &mut Rng, fam: &str, id: &str, prof: &Profile) {
         _ => unreachable!(),
     };
     // scripts
+    SPARSE.with(|s| s.set(prof.is("big") && rng.chance(50)));
     let mut scripts: Vec<Vec<Step>> = (0..n)
         .map(|c| {
             let ck = if fam == "wait_s" && c == 0 { ChildKind::Fut } else { child_kind };
             gen_script(rng, ck, c, n, small, prof)
         })
         .collect();
+    SPARSE.with(|s| s.set(false));
     inject_panic(rng, &mut scripts, if prof.is("panic") { 60 } else if prof.is("drain") { 0 } else { 6 });
     for (c, s) in scripts.iter().enumerate() {
         let id = add_child(s.clone(), c);
@@ -891,9 +903,12 @@ fn run_group(rng: &mut Rng, stream: bool, id: &str, prof: &Profile) {
     let mut key_of: Vec<Option<usize>> = vec![]; // child -> current key (None once gone)
     // constructor: new() / default() / with_capacity(k) (= new + reserve k) / from_iter (= new + extend)
     let ctor_roll = rng.below(100);
-    let ctor_kind = if prof.is("drain") || prof.is("refill") || ctor_roll < 55 { 0 } else if ctor_roll < 65 { 1 } else if ctor_roll < 82 { 2 } else { 3 };
+    // `big` profile, half of the cases: a WIDE group - built from an iterator of 33..72 members none of which has
+    // anything to say on its first poll (more members than any per-poll budget or bit block)
+    let wide = prof.is("big") && rng.chance(50);
+    let ctor_kind = if wide { 3 } else if prof.is("drain") || prof.is("refill") || ctor_roll < 55 { 0 } else if ctor_roll < 65 { 1 } else if ctor_roll < 82 { 2 } else { 3 };
     let cap0 = rng.below(7);
-    let iter_n = rng.below(4);
+    let iter_n = if wide { 33 + rng.below(40) } else { rng.below(4) };
     let mut inserts = 0usize;
     let mut next_w = 1usize;
     let mut cur_w = 1usize;
@@ -956,7 +971,9 @@ fn run_group(rng: &mut Rng, stream: bool, id: &str, prof: &Profile) {
             Ctor::WithCapacity(cap0)
         }
         _ => {
+            SPARSE.with(|s| s.set(wide));
             let cs: Vec<usize> = (0..iter_n).map(|_| new_child(rng, &mut block, &mut key_of)).collect();
+            SPARSE.with(|s| s.set(false));
             block.ops.push(format!(
                 "e {}",
                 if cs.is_empty() { "-".to_string() } else { cs.iter().map(|c| c.to_string()).collect::<Vec<_>>().join(",") }
@@ -1256,7 +1273,7 @@ fn gen_co_scripts(rng: &mut Rng, term: &str, shape: &str, items: usize, prof: &P
             let never = rng.chance(if prof.is("stuck") { 25 } else { 4 });
             if !never {
                 let ok = !(fallible_last && is_last_closure && rng.chance(err_pct));
-                let v = if ok { item_id(j) } else { 5000 + j };
+                let v = if ok { item_id(j) } else { 500_000 + j };   // error ids: disjoint from the item ids
                 w.push(Step { res: Res::Ready(ok, v), fires: vec![] });
             }
             scripts.push(w);
